@@ -243,6 +243,11 @@ def mem_requests(ctx):
                     out.append('sub %s %d %d' % (h, b, e))
         for b, e in ((n + 1, n + 1), (n + 1, n + 3), (n + 2, n + 1), (2147483647, n + 1), (n, n), (n, -1), (-1, n), (0, n), (n, 0)):
             out.append('sub %s %d %d' % (h, b, e))
+    two = [cs for cs in small if len(cs) <= 2]
+    for a in two:
+        for b in two:
+            if len(a) + len(b) <= 3:
+                out.append('cat %s %s' % (vlib.hx(b''.join(enc(c) for c in a)), vlib.hx(b''.join(enc(c) for c in b))))
     # combining ranges and their neighbours, newline placements
     for c in (0x64a, 0x64b, 0x650, 0x655, 0x656, 0x66f, 0x670, 0x671, 0xfc5d, 0xfc5e, 0xfc63, 0xfc64, 0x301, 0x20, 0x7e, 0x7f, 0x80, 0xa0):
         out.append('mem ' + vlib.hx(enc(0x62a) + enc(c) + enc(0x61)))
@@ -481,11 +486,31 @@ def run(ctx):
     lines = [r for r, _ in reqs]
     sweep = [] if ctx.replay else ['sweep 1 1114111']
 
+    found = {}
+
     def runit(exe, what):
         rc, out, err = vlib.run_lines(exe, sweep + lines, timeout=1500)
         if rc != 0:
-            res.violations.append({'what': '%s exited with status %d (sanitizer report or crash)' % (what, rc),
-                                   'stderr': err[-3000:], 'input': sweep + lines[:50]})
+            # the failing input: the shortest prefix of the string requests on which the sanitized build fails (bisection),
+            # its last request re-run alone; without one that reproduces alone the whole batch is reported
+            culprit = found.get('c')
+            if culprit is None and vlib.run_lines(probe_asan, lines, timeout=1500)[0] != 0:
+                lo, hi = 0, len(lines)          # lines[:lo] passes, lines[:hi] fails
+                while hi - lo > 1:
+                    mid = (lo + hi) // 2
+                    if vlib.run_lines(probe_asan, lines[:mid], timeout=1500)[0] != 0:
+                        hi = mid
+                    else:
+                        lo = mid
+                rc2, out2, err2 = vlib.run_lines(probe_asan, [lines[hi - 1]], timeout=60)
+                if rc2 != 0:
+                    culprit = found['c'] = (lines[hi - 1], rc2, err2)
+            if culprit:
+                res.violations.append({'what': '%s exited with status %d; the request %r alone makes the sanitized build exit with status %d (sanitizer report or crash)' % (what, rc, culprit[0], culprit[1]),
+                                       'stderr': culprit[2][-3000:], 'input': [culprit[0]]})
+            else:
+                res.violations.append({'what': '%s exited with status %d (sanitizer report or crash)' % (what, rc),
+                                       'stderr': err[-3000:], 'input': sweep + lines[:50]})
         return out
 
     out_c = runit(probe, 'probe_uc')
